@@ -28,7 +28,43 @@ CountingIO = TS.CountingIO
 
 
 def shards(tier, seed):
-    return list(range(len(TS.type_space(tier))))
+    return list(range(len(TS.type_space(tier)))) + ["epath-limits"]
+
+
+def check_epath_limits(rep):
+    """EPATH is a codec too: a path whose word count does not fit the one-byte length prefix is outside its domain."""
+    from pycomm3.cip import PADDED_EPATH, PACKED_EPATH, LogicalSegment, DataSegment
+    from pycomm3.exceptions import DataError
+
+    for cls, cname in ((PADDED_EPATH, "PADDED_EPATH"), (PACKED_EPATH, "PACKED_EPATH")):
+        for words in (1, 2, 254, 255, 256, 257, 300, 1000):
+            for form in ("logical", "symbolic", "bytes"):
+                if form == "logical":
+                    segs = [LogicalSegment(0x1234, "instance_id")] * (words // 2) + ([LogicalSegment(5, "class_id")] if words % 2 else [])
+                    if cname == "PACKED_EPATH":
+                        segs = [LogicalSegment(5, "class_id")] * words  # 2 bytes each when packed
+                elif form == "symbolic":
+                    segs = [DataSegment("ab")] * (words // 2) + ([LogicalSegment(5, "class_id")] if words % 2 else [])
+                else:
+                    segs = [b"\x20\x05"] * words
+                for kw in (dict(length=True), dict(length=True, pad_length=True), dict()):
+                    try:
+                        out = ("ok", bytes(cls.encode(segs, **kw)))
+                    except DataError:
+                        out = ("DataError",)
+                    except Exception as e:  # noqa
+                        out = ("foreign", type(e).__name__)
+                    fits = words <= 255 or not kw
+                    if fits:
+                        body = 2 * words
+                        ok = out[0] == "ok" and len(out[1]) == body + (len(kw) if kw else 0) and (not kw or out[1][0] == words)
+                    else:
+                        ok = out == ("DataError",)
+                    rep.case(("epath-limits", cname, words, form, tuple(kw)), nontrivial=not fits, outcome=out[0])
+                    if not ok:
+                        rep.violation(f"epath-length/{'encode-foreign-exception' if out[0] == 'foreign' else 'wrong-result'}",
+                                      f"{cname}.encode({words} words of {form} segments, {kw}) -> {out!r:.80}; " + ("the count does not fit one byte: DataError required" if not fits else "expected the encoded path"),
+                                      {"kind": "epath-limits"})
 
 
 def describe(tier, seed):
@@ -215,6 +251,9 @@ def check_node(rep, node, tier, idx):
 
 def run_shard(shard, tier, seed):
     rep = Report()
+    if shard == "epath-limits":
+        check_epath_limits(rep)
+        return rep
     check_node(rep, TS.type_space(tier)[shard], tier, shard)
     return rep
 
@@ -222,6 +261,12 @@ def run_shard(shard, tier, seed):
 def replay(r):
     from pycomm3.exceptions import DataError
 
+    if r.get("kind") == "epath-limits":
+        rep = Report()
+        check_epath_limits(rep)
+        for s_, vs in rep.violations.items():
+            print("  violates:", s_, "::", vs[0].msg[:300])
+        return not rep.violations
     node = TS.type_space(r["tier"])[r["type_index"]]
     print("type:", node.label)
     if r["kind"] == "invalid":
